@@ -290,6 +290,23 @@ def worker(job):
           'samples': [{'metric': name, 'law': law, 'batch sizes of a,b,c': list(sizes), 'paths': res.paths, 'claims_proved_unsat': res.discharged}]}
 
 
+def replay(data):
+  """./run.py C11 --replay FILE : re-runs the recorded law on the recorded values with real numpy on the current /repo."""
+  import ast
+  job = ast.literal_eval(data['job']) if isinstance(data['job'], str) else data['job']
+  values = ast.literal_eval(data['values']) if isinstance(data['values'], str) else data['values']
+  name, law, sizes = job
+  if name == 'FixedSizeSample':
+    print('FixedSizeSample counterexamples depend on the RNG stub; re-run ./run.py C11 --only FixedSizeSample'); return 2
+  for s_ in metric_specs.specs('laws') + extra_specs():
+    SPECS[s_.name] = s_
+  out = srun.run_concrete(make_build(SPECS[name], law, tuple(sizes)), dict(values))
+  ok = symx.concrete_close(out['left'], out['right'])
+  print(f"left={out['left']!r}\nright={out['right']!r}"[:1500])
+  print('NOT-REPRODUCED' if ok else 'REPRODUCED')
+  return 0 if ok else 1
+
+
 # four symbolic rows exceed the quick path budget (4000) for these; the thorough tier (40000 paths) runs them
 NARY_HEAVY = ('ConfusionMatrixMulticlassMicro', 'ConfusionMatrixMulticlassMacro', 'ThresholdedRetrieval', 'TopKConfusionMatrix', 'SamplewiseClassification')
 
